@@ -188,6 +188,17 @@ PROPS = {
                 "SHA-256 of the event log",
         "assumptions": FLEET_ASSUME,
     },
+    "C20": {
+        "level": "exploration",
+        "profiles": [{"name": "dupsort-sim", "weight": 1}],
+        "rule": "each case is a seeded sequence of 2-6 rounds of application changes to a real MDB_DUPSORT DBI (keys of 1-255 bytes, values with zero bytes at the separator "
+                "position, values longer than the space left in the shadow key, values that differ only beyond it, shared prefixes) each followed by one full mirror cycle of a "
+                "real shadow-mode syncer with dupsort_hack (main-to-shadow, dump, shadow-to-main in one transaction); an independent encoder/decoder written from the documented "
+                "layout decides whether the data is mappable; non-trivial = at least one mirror cycle succeeded; distinct = distinct SHA-256 of the event log",
+        "real": "Syncer.mainToShadow/shadowToMain/readDBI (through the guarded wrappers), dupSortHackEncode/Decode, strategy.IterUpdate/EmptyPut, LMDB",
+        "stub": "the application (seeded change sequences); no scheduler or clock dependence",
+        "assumptions": ["remote merges into dupsort DBIs are covered only through the shared merge path (C02/C18), not in this profile"],
+    },
 }
 
 ALL_PROFILES = sorted({p["name"] for c in PROPS.values() for p in c["profiles"]})
@@ -266,4 +277,8 @@ MANIFEST_TEXT = {
     "C11": {"text": "Shadow-mode fleets with integer-key DBIs, empty values and DBI creation; a map-based reference of the mirror is evaluated after every LS transaction "
                     "(capture with detection-time stamp, untouched entries keep timestamps, application DBIs = live entries after a merge).",
             "note": SIM_NOTE, "technique": "deterministic simulation (shadow-mode fleet) + map-based mirror reference evaluated per transaction"},
+    "C20": {"text": "Seeded change sequences on a real dupsort DBI, each followed by a full mirror cycle of the real shadow-mode syncer; an independent implementation of the documented "
+                    "layout decides mappability: mappable data must survive the cycle pair for pair with decodable, distinct, legal shadow keys and a stated transform; unmappable data must be refused "
+                    "with the LMDB byte-identical.",
+            "note": "No scheduler or clock dependence; seeded sequences, reference model, shrinking, replay.", "technique": "seeded operation sequences against an independent reference encoder (simulation without scheduler)"},
 }
